@@ -51,6 +51,7 @@ def clsOfName (s : String) : Option Cls :=
   | "skip" => some .skip | "flipFlop" => some .flipFlop | "switchOne" => some .switchOne
   | "randomExponential" => some .randomExponential | "randomImpulseSequence" => some .randomImpulseSequence
   | "markov" => some .markov
+  | "constP" => some .constP | "tupP" => some .tupP
   | _ => Option.none
 
 def parseRat (s : String) : Option Rat :=
@@ -128,7 +129,7 @@ def parseExpr : Nat → List String → Option (Pat × List String)
               | some (k, r) => kidsLoop f r (k :: acc)
               | Option.none => Option.none
         match kidsLoop (fuel + 1) rest3 [] with
-        | some (kids, r) => some (.node c kids (St.ofLists ns vs buf buf2 ds), r)
+        | some (kids, r) => some (construct (.node c kids (St.ofLists ns vs buf buf2 ds)), r)
         | Option.none => Option.none
     | t :: rest => (parseAtom t).map (fun a => (Pat.const (.a a), rest))
 
